@@ -6,6 +6,7 @@ import (
 	"context"
 	"encoding/json"
 	"fmt"
+	"os"
 	"time"
 
 	"github.com/cloudwego/eino/compose"
@@ -504,11 +505,25 @@ func (engine) Run(c any) lib.Result {
 		// overlapping runs of the same compiled graph (see concurrent.go)
 		switch {
 		case hubShape(cs):
-			res.Oracle, res.Sig = concurrentPhase(cs, 8, 150)
+			res.Oracle, res.Sig = concurrentIsolated(cs, 8, 150)
 			res.Tags = append(res.Tags, "concurrent:8x150")
+			if res.Oracle == "" {
+				// the FIRST runs of fresh compiles, made at once (in a process of its own, see firstcalls.go)
+				if wideHub(cs) {
+					res.Oracle, res.Sig = firstCallsIsolated(cs, 40, 8)
+					res.Tags = append(res.Tags, "first-calls:40x8-wide")
+				} else {
+					res.Oracle, res.Sig = firstCallsIsolated(cs, 24, 8)
+					res.Tags = append(res.Tags, "first-calls:24x8")
+				}
+			}
 		case (len(obs.Log)+len(cs.Forest))%8 == 0:
-			res.Oracle, res.Sig = concurrentPhase(cs, 4, 25)
+			res.Oracle, res.Sig = concurrentIsolated(cs, 4, 25)
 			res.Tags = append(res.Tags, "concurrent:4x25")
+			if res.Oracle == "" {
+				res.Oracle, res.Sig = firstCallsIsolated(cs, 12, 8)
+				res.Tags = append(res.Tags, "first-calls:12x8")
+			}
 		case (len(obs.Log)+len(cs.Forest))%8 < 3:
 			// the compiled runnable is invoked 6 times in a row on 4 input variants (nothing of a run may stay behind)
 			res.Oracle, res.Sig = concurrentPhase(cs, 1, 6)
@@ -519,4 +534,9 @@ func (engine) Run(c any) lib.Result {
 	return res
 }
 
-func main() { lib.Main(engine{}) }
+func main() {
+	if len(os.Args) > 1 && os.Args[1] == firstCallsFlag {
+		firstCallsChild()
+	}
+	lib.Main(engine{})
+}
